@@ -50,9 +50,10 @@ func (c c17case) String() string {
 }
 
 const (
-	c17cronFail = "5 5 5 5 *"
-	c17cronSlow = "6 6 6 6 *"
-	c17cronIdle = "7 7 7 7 *"
+	c17cronFail  = "5 5 5 5 *"
+	c17cronSlow  = "6 6 6 6 *"
+	c17cronIdle  = "7 7 7 7 *"
+	c17cronIdle2 = "8 7 7 7 *"
 )
 
 func TestC17(t *testing.T) {
@@ -64,7 +65,7 @@ func TestC17(t *testing.T) {
 				cat = append(cat, c17case{BackoffStop: bo, InFlight: inf, How: how})
 			}
 		}
-		for _, bo := range []string{"idle-on-tick", "idle-in-tick"} {
+		for _, bo := range []string{"idle-on-tick", "idle-in-tick", "between-tasks"} {
 			for _, inf := range []int{-1, 1} {
 				cat = append(cat, c17case{BackoffStop: bo, InFlight: inf, How: how})
 			}
@@ -89,6 +90,7 @@ func c17run(c *vlib.Case, cs c17case, res *vlib.Result) {
 	hs.Plan("h-fail", -1, vhk.Directive{Exit: 1})
 	hs.AddHook("h-slow", 0o755, cfgJSON(m{"configVersion": "v1", "schedule": []any{m{"name": "sS", "crontab": c17cronSlow, "queue": "qs"}}}))
 	hs.AddHook("h-idle", 0o755, cfgJSON(m{"configVersion": "v1", "onStartup": 1.0, "schedule": []any{m{"name": "sI", "crontab": c17cronIdle, "queue": "qi"}}}))
+	hs.AddHook("h-idle2", 0o755, cfgJSON(m{"configVersion": "v1", "schedule": []any{m{"name": "sI2", "crontab": c17cronIdle2, "queue": "qi"}}}))
 	hs.AddHook("h-kube", 0o755, cfgJSON(m{"configVersion": "v1", "kubernetes": []any{
 		m{"name": "kK", "apiVersion": "v1", "kind": "ConfigMap", "queue": "qk", "namespace": m{"labelSelector": m{"matchLabels": m{"watch": "yes"}}}},
 	}}))
@@ -140,8 +142,26 @@ func c17run(c *vlib.Case, cs c17case, res *vlib.Result) {
 			}
 			logf("handler of h-slow parked inside its handler with %d tasks behind it", cs.InFlight)
 		}
-		// idle queue with a task that arrived since its last poll; stop on the polling tick
-		if strings.HasPrefix(cs.BackoffStop, "idle-") {
+		// two tasks of different hooks in one queue; the stop is requested right after the first one was
+		// handled and its result applied, before the worker looks at the queue again
+		if cs.BackoffStop == "between-tasks" {
+			sys.Pts.On("q.loop.end", func(ev vlib.PointEvent) {
+				if ev.Args[0].(string) == "qi" && inTickStopSeq == 0 {
+					sys.Op.TaskQueues.Stop()
+					inTickStopSeq = sys.Pts.NextSeq()
+				}
+			})
+			tick(sys, c17cronIdle)
+			tick(sys, c17cronIdle2)
+			for i := 0; i < 10 && inTickStopSeq == 0; i++ {
+				sys.Advance(250 * time.Millisecond)
+			}
+			if inTickStopSeq == 0 {
+				res.Inconclusive = "the first of the two tasks was never handled"
+				return
+			}
+			logf("queue qi held two tasks (h-idle, h-idle2); stop requested right after the first was handled and its result applied (seq %d)", inTickStopSeq)
+		} else if strings.HasPrefix(cs.BackoffStop, "idle-") {
 			lastTick := func() time.Time {
 				var lt time.Time
 				for _, ev := range sys.Pts.Log() {
@@ -237,7 +257,7 @@ func c17run(c *vlib.Case, cs c17case, res *vlib.Result) {
 		stopEnd = sys.Pts.NextSeq()
 		synctest.Wait()
 		// events and ticks after the stop
-		for _, cr := range []string{c17cronFail, c17cronSlow, c17cronIdle} {
+		for _, cr := range []string{c17cronFail, c17cronSlow, c17cronIdle, c17cronIdle2} {
 			select {
 			case sys.Op.ScheduleManager.Ch() <- cr:
 			default:
@@ -286,7 +306,11 @@ func c17run(c *vlib.Case, cs c17case, res *vlib.Result) {
 				res.Violate("task-started-after-worker-saw-stop/"+cs.BackoffStop, "queue %s entered a handler (seq %d) after its worker had observed the cancelled context in the wait loop\n%s", q, ev.Seq, desc())
 			}
 			if inTickStopSeq != 0 && q == "qi" && ev.Seq > inTickStopSeq {
-				res.Violate("task-started-after-stop-inside-poll-tick", "idle queue qi entered a handler (seq %d) although the stop was requested (seq %d) inside its polling tick, before it had picked the task\n%s", ev.Seq, inTickStopSeq, desc())
+				sig, where := "task-started-after-stop-inside-poll-tick", "inside its polling tick, before it had picked the task"
+				if cs.BackoffStop == "between-tasks" {
+					sig, where = "task-started-after-stop-between-tasks", "between two tasks, after the first one's result had been applied"
+				}
+				res.Violate(sig, "queue qi entered a handler (seq %d) although the stop was requested (seq %d) %s\n%s", ev.Seq, inTickStopSeq, where, desc())
 			}
 			if ev.Seq > stopEnd {
 				entersAfterStop[q]++
